@@ -99,7 +99,11 @@ def benign_patch_variants(prop):
     return out
 
 
-TRIAGE_UNDECIDED = ('M0851',)     # judged "marginal" by the triage itself
+TRIAGE_UNDECIDED = ('M0851',     # judged "marginal" by the triage itself
+                    # demonstrated breaks no rule claims (DESIGN.md section 6:
+                    # the attribute is stored by another method; whether that
+                    # method ran first is a cross-class call-order question)
+                    'M0448', 'M0868')
 # the triage named two properties; the check that decides it belongs to the
 # second one (the root cause)
 TRIAGE_PROPERTY = {'M1095': 'C02', 'M0662': 'C07'}
